@@ -18,36 +18,32 @@
    the index and the cache; a failed Block::create left index and cache behind and lost the
    drained pool; after 1214e31 a successful bundle kept the reservations of a left-out
    transaction's other inputs).  The fixes 0fedb86, 2cf0b5a, cafb4ab, ff837ac, 1214e31,
-   ffb4da9 repaired that; the model follows /repo HEAD (also f62222f, e0300b2, 9879695 of the
+   ffb4da9, df3ca14 repaired that; the model follows /repo HEAD (also f62222f, e0300b2, 9879695 of the
    producer side).  The histories that used to break the pool are Example
    C14_regression_examples / C14_example_left_out.
 
-   Now: I1, I3, I5, the auxiliary invariants, and I2 in the sense of the code's own
-   revalidation (every value input of a pooled transaction is spendable in the utxoset) hold
-   after EVERY operation sequence.
-   I4 holds for every bundle whose Block::create does not fail, with one exception that is
-   part of the statement: a pooled transaction that spends an output which the produced
-   block itself rebroadcasts is left out of the block and of the pool (1214e31; such a
-   transaction can never validate again once the block is on the chain:
-   C14_I4_left_out_is_doomed).  A failing Block::create is not reachable with well-formed
+   Now: I1, I2 (utxoset lookup and age rule), I3, I5 and the auxiliary invariants hold after
+   EVERY operation sequence.
+   I4 holds for every bundle whose Block::create does not fail.  For an arbitrary pool state
+   the statement carries one exception: a pooled transaction that spends an output which the
+   produced block itself rebroadcasts is left out of the block and of the pool (1214e31; such
+   a transaction can never validate again once the block is on the chain:
+   C14_I4_left_out_is_doomed); on reachable pools the exception is empty (below).  A failing Block::create is not reachable with well-formed
    transactions (C14_I4_create_succeeds) and hands the pool back
    (C14_I4_failed_create_restores_pool); C14_failed_create is that decidable step class.
 
    The age rule of bb88717 (an input must satisfy block_id + genesis_period >= latest + 1) is
-   explicit in the model ([age_ok], part of [tx_validate]).  It is applied at intake and when a
-   failed own block returns its transactions, but NOT by the revalidation after a block
-   (remove_block_transactions' retain calls validate_against_utxoset, the utxoset lookup only).
-   Hence "no pooled transaction has an input older than latest + 1 - genesis_period" is not an
-   invariant: after a block addition a pooled transaction may fail validate() and stay pooled
-   (I2 in the sense of Transaction::validate; C14_pool_age_invariant_refuted), and
-   Block::create's leaving-out stays reachable from the pool (C14_leave_out_still_reachable).
-   Known_C14_aged is that step class; outside it the invariant holds (C14_pool_age_invariant)
-   and then nothing is left out (C14_I4_no_leave_out_when_young): the exception in I4
-   disappears exactly when the revalidation applies the age rule too. *)
+   explicit in the model ([age_ok], part of [tx_validate]).  It is applied at intake, when a
+   failed own block returns its transactions, and -- since df3ca14, the repair of the finding
+   aged-tx-stays-pooled -- by the revalidation after every block addition.  Hence "no pooled
+   transaction has an input older than latest + 1 - genesis_period" is an invariant
+   (C14_pool_age_invariant), the leaving-out set of Block::create is empty from the mempool
+   path (C14_I4_no_leave_out_from_pool) and I4 holds without the exception on every reachable
+   pool (C14_I4_bundle_atomic_reachable).  The history that used to break it is Example
+   C14_aged_regression_example. *)
 From Saito Require Import Base Mempool MempoolProofs.
 
 Definition C14_failed_create := ev_failed_create.
-Definition Known_C14_aged := ev_aged.
 
 (* ---------------- I1, I3, I5: after every operation sequence ---------------- *)
 
@@ -73,9 +69,8 @@ Proof. exact routing_work_exact_after_block. Qed.
 
 (* ---------------- I2: pooled transactions stay valid against the ledger ---------------- *)
 
-(* in the sense of the pool's own revalidation (Transaction::validate_against_utxoset: every
-   value input is spendable): after every block addition / reorganisation, whatever the new
-   ledger is *)
+(* every value input of a pooled transaction is spendable: after every block addition /
+   reorganisation, whatever the new ledger is *)
 Theorem C14_I2_pooled_valid_after_block : forall s l n b x,
   step s (OBlockAdded l n b) = Ok x ->
   ledger (fst x) = mkC l n (c_gp (ledger s)) /\ I2 (ledger (fst x)) (pl (fst x)).
@@ -87,17 +82,12 @@ Theorem C14_I2_pooled_valid_always : forall g ops s,
   Forall op_consults ops -> run (init g) ops = Ok s -> I2 (ledger s) (pl s).
 Proof. exact pooled_valid_always. Qed.
 
-(* in the sense of Transaction::validate, which since bb88717 includes the age rule: refuted.
-   A pooled transaction t with a valid signature etc. (t_ok) and spendable inputs that
-   validate() refuses after a block addition, and that the pool itself would refuse as a
-   new arrival *)
-Theorem C14_pool_age_invariant_refuted :
-  exists g ops s t,
-    run (init g) ops = Ok s /\ known_in Known_C14_aged (init g) ops = true /\
-    In t (txs (pl s)) /\ t_ok t = true /\ valid_against (ledger s) t = true /\
-    tx_validate (ledger s) t = false /\
-    add_transaction_if_validates (ledger s) (set_txs (pl s) []) t = Ok (set_txs (pl s) []).
-Proof. exact pool_age_invariant_refuted. Qed.
+(* ... and, after every block addition, satisfies the age rule of Transaction::validate *)
+Theorem C14_I2_pooled_young_after_block : forall s l n b x,
+  step s (OBlockAdded l n b) = Ok x ->
+  forall t, In t (txs (pl (fst x))) -> t_type t <> TATR -> t_type t <> TIssuance ->
+  age_ok (ledger (fst x)) t = true.
+Proof. exact pooled_young_after_block. Qed.
 
 (* the rule is applied to every arrival ... *)
 Theorem C14_age_checked_at_intake : forall c p t p',
@@ -105,10 +95,9 @@ Theorem C14_age_checked_at_intake : forall c p t p',
   age_ruled t = true -> age_ok c t = true.
 Proof. exact age_checked_at_intake. Qed.
 
-(* ... and every pooled transaction satisfies it on every run in which no block addition lets
-   a transaction that stays pooled grow too old (what a retain with the age rule would drop) *)
-Theorem C14_pool_age_invariant : forall g ops s,
-  known_in Known_C14_aged (init g) ops = false -> run (init g) ops = Ok s -> AgeInv s.
+(* ... and no pooled transaction (of a type that validate() subjects to the rule) has an input
+   older than latest + 1 - genesis_period, after every operation sequence *)
+Theorem C14_pool_age_invariant : forall g ops s, run (init g) ops = Ok s -> AgeInv s.
 Proof. exact pool_age_invariant. Qed.
 
 (* ---------------- I3: no stale reservation; unspent outputs stay spendable ---------------- *)
@@ -162,8 +151,8 @@ Theorem C14_I4_left_out_is_doomed : forall rk t ledger',
   (forall k, In k rk -> ~ In k (c_keys ledger')) -> valid_against ledger' t = false.
 Proof. exact left_out_is_doomed. Qed.
 
-(* where the pool age invariant holds the exception is empty: [born k] = id of the block that
-   created output k; the block after [latest] rebroadcasts outputs of block latest - gp, and a
+(* the exception is empty for transactions that satisfy the age rule: [born k] = id of the
+   block that created output k; the block after [latest] rebroadcasts outputs of block latest - gp, and a
    transaction whose value inputs satisfy the age rule spends none of them *)
 Theorem C14_I4_no_leave_out_when_young : forall (born : N -> N) c ex l,
   (forall k, In k (rebroadcast_keys ex) -> born k + c_gp c < c_latest c + 1) ->
@@ -173,14 +162,27 @@ Theorem C14_I4_no_leave_out_when_young : forall (born : N -> N) c ex l,
   kept ex l = l.
 Proof. exact no_leave_out_when_young. Qed.
 
-(* on the pinned code it is not: the two transactions that grew old in the pool
-   (C14_pool_age_invariant_refuted) are both left out by the next bundle *)
-Example C14_leave_out_still_reachable :
-  exists s p' b, run (init wG5) ops_aged = Ok s /\
-    bundle_block (ledger s) (pl s) true None true 0 (Some wS)
-                 [wR; mkTx 31 [(3, 100)] 0 TATR true 0 (Some 1) true] = Ok (p', Some b) /\
-    map t_id b = [90; 30; 31] /\ txs p' = [] /\ umap p' = [].
-Proof. exact leave_out_still_reachable. Qed.
+(* hence, from the mempool path, nothing is left out: on every reachable pool, for the
+   rebroadcasts of the block that follows the tip *)
+Theorem C14_I4_no_leave_out_from_pool : forall (born : N -> N) g ops s ex,
+  run (init g) ops = Ok s ->
+  (forall k, In k (rebroadcast_keys ex) -> born k + c_gp (ledger s) < c_latest (ledger s) + 1) ->
+  (forall t, In t (txs (pl s)) -> t_type t <> TGoldenTicket ->
+     age_ruled t = true /\ forall k, In k (vkeys t) -> exists e, t_oldest t = Some e /\ e <= born k) ->
+  kept ex (txs (pl s)) = txs (pl s).
+Proof. exact no_leave_out_from_pool. Qed.
+
+(* I4 without exception on reachable pools: the block contains every pooled transaction,
+   the pool is emptied, no reservation and no cached work is left *)
+Theorem C14_I4_bundle_atomic_reachable : forall (born : N -> N) g ops s ts bg env wn st ex p' b,
+  run (init g) ops = Ok s ->
+  bundle_block (ledger s) (pl s) ts bg env wn st ex = Ok (p', Some b) ->
+  (forall k, In k (rebroadcast_keys ex) -> born k + c_gp (ledger s) < c_latest (ledger s) + 1) ->
+  (forall t, In t (txs (pl s)) -> t_type t <> TGoldenTicket ->
+     age_ruled t = true /\ forall k, In k (vkeys t) -> exists e, t_oldest t = Some e /\ e <= born k) ->
+  txs p' = [] /\ umap p' = [] /\ work p' = 0 /\ dup_spend b = false /\
+  forall t, In t (txs (pl s)) -> In t b.
+Proof. exact bundle_atomic_reachable. Qed.
 
 (* Block::create cannot fail on a reachable pool (Reserved, I1: C14_base_invariants; no
    GoldenTicket-typed transaction: it would have panicked) of transactions naming each input
@@ -263,9 +265,18 @@ Example C14_example_left_out :
     map t_id b = [90; 15; 30] /\ txs p' = [] /\ umap p' = [].
 Proof. exact left_out_example. Qed.
 
+(* regression (aged-tx-stays-pooled): two transactions pooled at tip 5 whose inputs are of block
+   1 (window of 5); a peer block makes the tip 6: they are dropped with their reservations and
+   their routing work (validate() refuses them from then on) *)
+Example C14_aged_regression_example :
+  exists s, run (init wG5) ops_aged = Ok s /\
+    txs (pl s) = [] /\ umap (pl s) = [] /\ work (pl s) = 0 /\
+    tx_validate (ledger s) wE = false.
+Proof. exact aged_regression_example. Qed.
+
 Example C14_example_life_cycle :
   exists s, run (init wG) ops_life = Ok s /\
-    known_in (fun s o => C14_failed_create s o || Known_C14_aged s o) (init wG) ops_life = false /\
+    known_in C14_failed_create (init wG) ops_life = false /\
     map t_id (txs (pl s)) = [18; 15] /\ umap (pl s) = [4; 3] /\ work (pl s) = 47 /\
     gts (pl s) = [].
 Proof. exact life_example. Qed.
@@ -276,10 +287,12 @@ Print Assumptions C14_I5_routing_work_cache.
 Print Assumptions C14_I5_exact_after_block.
 Print Assumptions C14_I2_pooled_valid_after_block.
 Print Assumptions C14_I2_pooled_valid_always.
-Print Assumptions C14_pool_age_invariant_refuted.
+Print Assumptions C14_I2_pooled_young_after_block.
 Print Assumptions C14_age_checked_at_intake.
 Print Assumptions C14_pool_age_invariant.
 Print Assumptions C14_I4_no_leave_out_when_young.
+Print Assumptions C14_I4_no_leave_out_from_pool.
+Print Assumptions C14_I4_bundle_atomic_reachable.
 Print Assumptions C14_I3_no_stale_reservation.
 Print Assumptions C14_I3_no_stale_reservation_after_block.
 Print Assumptions C14_I3_unspent_always_spendable.
